@@ -4,6 +4,7 @@ import (
 	"encoding/json"
 	"fmt"
 	"reflect"
+	"slices"
 	"sync/atomic"
 	"time"
 
@@ -736,17 +737,14 @@ func (s *clientSocket) registerAckHandler(f any, timeout time.Duration) (id uint
 		delete(s.acks, id)
 		s.acksMu.Unlock()
 
-		remove := func(slice []sendBufferItem, s int) []sendBufferItem {
-			return append(slice[:s], slice[s+1:]...)
-		}
-
 		s.sendBufferMu.Lock()
-		for i, packet := range s.sendBuffer {
+		s.sendBuffer = slices.DeleteFunc(s.sendBuffer, func(packet sendBufferItem) bool {
 			if packet.ackID != nil && *packet.ackID == id {
 				s.debug.Log("Removing packet with ack ID", id)
-				s.sendBuffer = remove(s.sendBuffer, i)
+				return true
 			}
-		}
+			return false
+		})
 		s.sendBufferMu.Unlock()
 	})
 	if err != nil {
